@@ -99,6 +99,12 @@ def make_jobs(rng):
                  dict(min_max_height=(lo, lo + rng.randint(0, 5)), height=5, width=4, depth=3,
                       w2h_ratio=rng.choice([1.0, 0.5, 1.25, 0.75]), d2h_ratio=rng.choice([1.0, 0.25, 1.5])), [],
                  lambda o: o.get_params(), None))
+    cp = [rng.randint(0, 2 * n) if rng.random() < 0.7 else rng.randint(0, 3) for n in (H, H, W, W, D, D)]
+    jobs.append(('CropAndPadS_prevent_zero', 'CropAndPad', dict(px=(0, 0, 0, 0, 0, 0)), [tuple(cp), H, W, D],
+                 lambda o, c=cp: tuple(o._prevent_zero(list(c), H, W, D)), None))
+    v1, v2, mv = rng.randint(0, 12), rng.randint(0, 12), rng.randint(1, 10)
+    jobs.append(('CropAndPadS_priv_prevent_zero', 'CropAndPad', dict(px=(0, 0, 0, 0, 0, 0)), [v1, v2, mv],
+                 lambda o: tuple(o._CropAndPad__prevent_zero(v1, v2, mv)), None))
     # dyadic fractions: int(fraction * extent) is then the same in float64 and in exact arithmetic (no truncation at a
     # value that is an integer only up to round-off)
     kw = {k: rng.choice([0.125, 0.25, 0.375, 0.4375]) for k in ('crop_left', 'crop_right', 'crop_top', 'crop_bottom', 'crop_close', 'crop_far')}
